@@ -26,7 +26,7 @@ PROPS["C14"] = {
     "note": "Trusted: go/ssa, the executor, z3. Stubs: rand.IntN is an explored choice, Work.Do runs one runner. Outside: real goroutine races, Upgrade/Downgrade/Req, modrequirements pruning, inputs beyond the bounds.",
     "technique": "bounded symbolic execution of the real semver / module.Versions.Max / mvs.BuildList / par.Work code from go/ssa; z3 decides every branch and assertion; differential against an independent SemVer 2.0 reference and a least-fixpoint reference",
     "bounds": {
-        "quick": "semver: all pairs of byte strings of length <= 5 (total preorder), pairs 'template + <=2 arbitrary bytes' over 7 templates (agreement with SemVer 2.0 reference, Canonical), triples with <=1 arbitrary byte after each template (transitivity); Max: all pairs of strings <= 6 bytes; BuildList: target + 2 paths x 2 versions with symbolic minor digits, every requirement relation with <=1 requirement per other path per node, every processing order of the real work queue",
+        "quick": "semver: all pairs of byte strings of length <= 5 (total preorder), pairs 'template + <=2 arbitrary bytes' over 7 templates (agreement with SemVer 2.0 reference, Canonical), triples with <=1 arbitrary byte after each template (transitivity); Max: all pairs of strings <= 6 bytes; BuildList: target + 2 paths x 2 versions with symbolic minor digits, every requirement relation with <=1 requirement per other path per node, and a deeper universe (b with two versions, c, d; all 2^8 edge sets of a->{b0,b1,c}, b*->{c,d}, c->d), every processing order of the real work queue",
         "thorough": "as quick with pairs <= 7 bytes (preorder), template + <=3 bytes (reference agreement), triples template + <=2 bytes, Max pairs <= 7 bytes",
     },
     "outside": ["data races between real runners (Work.Do runs one runner whose pick is symbolic; mutex-protected sections are atomic in both models)", "Upgrade/Downgrade/Req", "modrequirements pruning", "version strings longer than the bounds", "requirement graphs larger than the stated universe"],
@@ -61,7 +61,7 @@ PROPS["C14"] = {
         {
             "pkg": "./internal/mod/mvs",
             "harness": ["mvs/buildlist.go"],
-            "entries": {"quick": ["verifHarnessBuildList"], "thorough": ["verifHarnessBuildList"]},
+            "entries": {"quick": ["verifHarnessBuildList", "verifHarnessBuildListChain"], "thorough": ["verifHarnessBuildList", "verifHarnessBuildListChain"]},
         },
     ],
 }
@@ -207,7 +207,7 @@ PROPS["C06"] = {
     "note": "Trusted: go/ssa, the executor, z3, the decimal contract model (validated against real apd on every run). Outside: division (/), Pow and pkg/math builtins, number printing and re-reading (apd's formatter), literals longer than the bound, coefficients beyond the stated digits.",
     "technique": "bounded symbolic execution of adt.BinOp/numOp/intDivOp and literal.ParseNum/NumInfo.Decimal/scanner.Scan from go/ssa; operands are decimals with mathematical-integer coefficients (SMT Int); exactness and identities decided by z3",
     "bounds": {
-        "quick": "+ - *: int and float operands, |coefficient| < 10^3, exponents in [-1,1]; int*int with coefficients < 10^18 and int+int, int-int with coefficients < 10^35 (results beyond 34 digits); div/mod/quo/rem: |operands| < 10^3 (quick) / 10^4 (thorough; symbolic-by-symbolic multiplication is what limits this); comparisons: same numbers, strings/bytes <= 2 bytes; literals: every byte string of <= 4 bytes",
+        "quick": "+ - *: int and float operands, |coefficient| < 10^3, exponents in [-1,1]; int*int with coefficients < 10^18 and int+int, int-int with coefficients < 10^35 (results beyond 34 digits); div/mod/quo/rem: |operands| < 10^3 (quick) / 10^4 (thorough; symbolic-by-symbolic multiplication is what limits this); comparisons: same numbers, strings/bytes <= 2 bytes; literals: every byte string of <= 4 bytes, plus 7 long templates (64-bit and 128-bit boundaries in hex/binary/octal/decimal, a 37-digit Ki literal) with 1 arbitrary byte inserted",
         "thorough": "coefficients < 10^6, exponents in [-2,2]; float*float < 10^18 (reaches the recorded precision finding); literals <= 6 bytes",
     },
     "outside": ["/ (Quo) and reduceKeepingFloats", "Pow, pkg/math", "printing and re-reading numbers", "NaN/Infinity"],
@@ -243,8 +243,8 @@ PROPS["C06"] = {
             "harness": ["scanner/total.go", "scanner/numvalue.go"],
             "apdmodel": True,
             "entries": {
-                "quick": [{"name": "verifHarnessNumLiteralValue", "params": {"N": 4}}],
-                "thorough": [{"name": "verifHarnessNumLiteralValue", "params": {"N": 6}}],
+                "quick": [{"name": "verifHarnessNumLiteralValue", "params": {"N": 4}}] + [{"name": "verifHarnessNumLiteralValue", "params": {"N": 1, "T": t}} for t in range(1, 8)],
+                "thorough": [{"name": "verifHarnessNumLiteralValue", "params": {"N": 6}}] + [{"name": "verifHarnessNumLiteralValue", "params": {"N": 2, "T": t}} for t in range(1, 8)],
             },
         },
     ],
@@ -278,9 +278,11 @@ PROPS["C15"] = {
                     {"name": "verifHarnessCheckZipName", "params": {"N": 2}},
                     {"name": "verifHarnessCheckZipCollisions", "params": {"N": 3, "MODE": 0}},
                     {"name": "verifHarnessCheckZipCollisions", "params": {"N": 3, "MODE": 1}},
+                    {"name": "verifHarnessCheckZipCollisions", "params": {"N": 3, "MODE": 2}},
                     "verifHarnessCheckZipSizes",
                 ],
                 "thorough": [
+                    {"name": "verifHarnessCheckZipCollisions", "params": {"N": 3, "MODE": 2}},
                     {"name": "verifHarnessCheckZipName", "params": {"N": 3}},
                     {"name": "verifHarnessCheckZipCollisions", "params": {"N": 3, "MODE": 0}},
                     {"name": "verifHarnessCheckZipCollisions", "params": {"N": 4, "MODE": 1}},
